@@ -398,3 +398,207 @@ def run(ctx):
     same_start(ctx)
     section_average(ctx)
     ctx.flush()
+
+
+# ---- extras2 (harness extension hx_b): exact scaling, top-level names and defaults, containers, large rotation / same_start instances -----------
+
+def _x2_scale(ctx, cur):
+    """(2) the combination, peak measures and section averages are of degree 1 in the records (exact for 2^+-600), the Arias intensity of degree 2
+    (2^+-200 / 2^+-400), the lags found by time_match of degree 0: the aligned cluster of the scaled records is the scaled aligned cluster (the
+    search compares sums of SQUARED residuals: 2^+-200 / 2^+-400; at 2^-600 every square underflows to 0 -- see NOTES, not demanded)"""
+    import eqsig
+    from eqsig.multiple import combine_at_angle, compute_rotated
+    from _hxb_common import same, val
+    rng = ctx.rng
+    for it in range(30 if ctx.tier == 'quick' else 300):
+        n = gen.log_int(rng, 3, 200)
+        dt = gen.any_dt(rng)
+        ns, we = gen.any_record(rng, n, dt)[1], gen.any_record(rng, n, dt)[1]
+        theta = rng.choice([0, 90, 180, 33.0, -77.5, rng.uniform(-400, 800)])
+        off = rng.choice([0, 30.5, 200, -45.25])
+        inputs = {'ns': ns, 'we': we, 'dt': dt, 'angle': theta, 'angle_off_ns': off}
+        cur.clear()
+        cur.update(inputs)
+        ctx.hist('extras2/scale/rotation')
+        ctx.count_case(('x2s', ns.tobytes(), we.tobytes(), dt, theta), nontriv([ns, we]))
+        mk = lambda a, f=1.0, d=dt: eqsig.AccSignal(a * f, d)   # noqa: E731
+        base = np.array(combine_at_angle(mk(ns), mk(we), theta).values)
+        rot = {p: compute_rotated(mk(ns), mk(we), angle_off_ns=off, parameter=p, points=5) for p in ('pga', 'pgv', 'arias_intensity')}
+        for k in gen.EXTREME_POW2 + (-200, 200):
+            f = 2.0 ** k
+            sc = {**inputs, 'scale': '2**%d' % k}
+            with np.errstate(all='ignore'):
+                g = val(call_impl(lambda: np.array(combine_at_angle(mk(ns, f), mk(we, f), theta).values)))
+                ctx.oracle('C18.a the combination is linear: scaling both components by a power of two scales it exactly', g is not None and gen.scaled_exactly(g, base, f), sc)
+                for p, deg in (('pga', 1), ('pgv', 1), ('arias_intensity', 2)):
+                    if deg == 2 and abs(k) > 400:
+                        continue
+                    r = val(call_impl(compute_rotated, mk(ns, f), mk(we, f), angle_off_ns=off, parameter=p, points=5))
+                    ctx.oracle('C18.b the rotated %s scan is homogeneous of degree %d: same angles, values scaled exactly by the power of two' % (p, deg),
+                               r is not None and same(r[0], rot[p][0]) and gen.scaled_exactly(r[1], rot[p][1], f ** deg), sc,
+                               detail=None if r is None else {'got': r[1], 'base': rot[p][1]})
+                # the time step does not enter the combination; pga scan unchanged, angles unchanged
+                r = val(call_impl(compute_rotated, mk(ns, 1.0, dt * f), mk(we, 1.0, dt * f), angle_off_ns=off, parameter='pga', points=5))
+                ctx.oracle('C18.b the rotated pga scan does not depend on the time step (dt x 2^k)', r is not None and same(r[0], rot['pga'][0]) and same(r[1], rot['pga'][1]), sc)
+    for it in range(30 if ctx.tier == 'quick' else 300):
+        nsig = rng.choice([2, 3, 4])
+        master = rng.randrange(nsig)
+        steps = rng.choice([1, 2, 3, 5])
+        n = rng.choice([2 * steps + 3, 12 + steps, 40, 90])
+        basev = [rng.randint(-9, 9) / rng.choice([1.0, 8.0]) for _ in range(n)]
+        lags = [0 if k == master else rng.randint(-steps + 1, steps - 1) for k in range(nsig)]
+        sigs = [list(basev) if k == master else shifted(rng, basev, lags[k]) for k in range(nsig)]
+        dt = rng.choice(DYADIC_DTS)
+        start, end = sorted([rng.choice([0, dt, 3 * dt]), rng.choice([2 * dt, 5 * dt, n * dt])])
+        inputs = {'signals': sigs, 'dt': dt, 'master_index': master, 'steps': steps, 'lags': lags, 'start': start, 'end': end}
+        cur.clear()
+        cur.update(inputs)
+        ctx.hist('extras2/scale/cluster')
+        ctx.count_case(('x2sc', repr(sigs), master, steps), True)
+
+        def run_cluster(f, what, d=dt):
+            c = eqsig.Cluster([np.array(s, dtype=float) * f for s in sigs], d, master_index=master)
+            if what == 'time_match':
+                c.time_match(steps=steps)
+            else:
+                c.same_start(start=start, end=end)
+            return [np.array(c.values_by_index(i), dtype=float) for i in range(nsig)]
+        for what, ks in (('time_match', (200, -200, 400, -400)), ('same_start', gen.EXTREME_POW2)):
+            b = val(call_impl(run_cluster, 1.0, what))
+            if b is None:
+                continue
+            for k in ks:
+                with np.errstate(all='ignore'):
+                    g = val(call_impl(run_cluster, 2.0 ** k, what))
+                ctx.oracle('C18 %s: the result for records scaled by a power of two is the scaled result (every signal, exactly)' % what,
+                           g is not None and len(g) == nsig and all(gen.scaled_exactly(x, y, 2.0 ** k) for x, y in zip(g, b)), {**inputs, 'scale': '2**%d' % k})
+            if what == 'time_match':
+                k = rng.choice([-600, 600, -30])
+                g = val(call_impl(run_cluster, 1.0, what, dt * 2.0 ** k))
+                ctx.oracle('C18.c time_match does not depend on the time step (dt x 2^k)', g is not None and all(same(x, y) for x, y in zip(g, b)), {**inputs, 'dt scale': '2**%d' % k})
+
+
+def _x2_options(ctx, cur):
+    """(3) top-level names eqsig.combine_at_angle / eqsig.compute_rotated / eqsig.Cluster, documented defaults (angle_off_ns=0, points=100;
+    same_start window 0..1 s; time_match steps=10; master_index=0), Signal.get_section_average == fns.average.get_section_average;
+    (4) components built from any container / dtype"""
+    import eqsig
+    import eqsig.multiple as mu
+    from eqsig.fns import average
+    from _hxb_common import same, val
+    rng = ctx.rng
+    ctx.oracle('C18 eqsig.combine_at_angle / eqsig.compute_rotated / eqsig.Cluster are the functions of eqsig.multiple', eqsig.combine_at_angle is mu.combine_at_angle and
+               eqsig.compute_rotated is mu.compute_rotated and eqsig.Cluster is mu.Cluster, {})
+    for it in range(20 if ctx.tier == 'quick' else 200):
+        n = gen.log_int(rng, 110, 300)         # longer than the default 1 s window of same_start for every step below
+        dt = rng.choice([0.01, 0.02, 0.05, 0.125])
+        ns, we = gen.int_record(rng, n, -9, 9), gen.int_record(rng, n, -9, 9)
+        inputs = {'ns': ns, 'we': we, 'dt': dt}
+        cur.clear()
+        cur.update(inputs)
+        ctx.hist('extras2/options')
+        ctx.count_case(('x2o', ns.tobytes(), we.tobytes(), dt), True)
+        a, b = eqsig.AccSignal(ns, dt), eqsig.AccSignal(we, dt)
+        g, want = val(call_impl(eqsig.compute_rotated, a, b, parameter='pga')), mu.compute_rotated(a, b, angle_off_ns=0.0, parameter='pga', func=None, points=100)
+        ctx.oracle('C18.b compute_rotated defaults: angle_off_ns=0, points=100 (100 angles from 0 to 180)', g is not None and same(g[0], want[0]) and same(g[1], want[1]) and
+                   len(g[0]) == 100 and g[0][0] == 0 and g[0][-1] == 180, inputs)
+        g = val(call_impl(eqsig.compute_rotated, a, b, 30.0, 'pga', None, 7))
+        want = mu.compute_rotated(a, b, angle_off_ns=30.0, parameter='pga', points=7)
+        ctx.oracle('C18.b compute_rotated positional form == keyword form', g is not None and same(g[0], want[0]) and same(g[1], want[1]), inputs)
+        ref = np.array(mu.combine_at_angle(a, b, 33.0).values)
+        for lab, c in gen.container_variants(ns):
+            ctx.hist('extras2/container/' + lab)
+            c2 = dict(gen.container_variants(we))[lab]
+            g = val(call_impl(lambda: np.array(eqsig.combine_at_angle(eqsig.AccSignal(c, dt), eqsig.AccSignal(c2, dt), 33.0).values)))
+            ctx.oracle('C18.a the combination does not depend on the container or dtype the components were built from', same(g, ref), {**inputs, 'container': lab})
+        # cluster defaults
+        lag = rng.randint(-9, 9)
+        sl = np.array(shifted(rng, list(ns), lag), dtype=float) + 2.5
+        for what, dflt, expl in (('same_start', lambda c: c.same_start(), lambda c: c.same_start(start=0, end=1)),
+                                 ('time_match', lambda c: c.time_match(), lambda c: c.time_match(steps=10))):
+            outs = []
+            for f in (dflt, expl):
+                c = eqsig.Cluster([ns.copy(), sl.copy() - (2.5 if what == 'time_match' else 0.0)], dt)
+                r = call_impl(f, c)
+                outs.append(None if r[0] != 'ok' else [np.array(c.values_by_index(i), dtype=float) for i in range(2)] + [c.master_index])
+            ctx.oracle('C18 Cluster defaults (master_index=0; %s)' % ('same_start window 0..1 s' if what == 'same_start' else 'time_match steps=10'),
+                       outs[0] is not None and outs[1] is not None and outs[0][2] == 0 and same(outs[0][0], outs[1][0]) and same(outs[0][1], outs[1][1]) and same(outs[0][0], ns),
+                       {**inputs, 'slave': sl, 'lag': lag})
+        s_, e_ = sorted([rng.choice([0, dt, 0.1]), rng.choice([0.2, 0.5, n * dt, -1])]) if rng.random() < 0.7 else (0, -1)
+        sig = eqsig.Signal(ns, dt)
+        g1, g2 = call_impl(sig.get_section_average, start=s_, end=e_), call_impl(average.get_section_average, sig, start=s_, end=e_)
+        ctx.oracle('C18.d Signal.get_section_average == fns.average.get_section_average', g1[0] == g2[0] and (g1[0] != 'ok' or g1[1] == g2[1] or (g1[1] != g1[1] and g2[1] != g2[1])),
+                   {**inputs, 'start': s_, 'end': e_}, detail=[g1, g2])
+
+
+def _x2_large(ctx, cur):
+    """(1) components of 20 000 - 70 000 samples: combination against ns*cos+we*sin, the 0 / 90 / +180 identities, the pga scan against the
+    combinations; same_start on clusters of long records (section averages equal the master's, master unchanged)"""
+    import eqsig
+    from eqsig.multiple import combine_at_angle, compute_rotated
+    from _hxb_common import same, val, light_history
+    rng = ctx.rng
+    for n in ([rng.choice([20000, 32768, 32769]), rng.choice([50000, 65536, 70001])] if ctx.tier == 'quick' else [20000, 32768, 32769, 50000, 65536, 65537, 100000]):
+        seed = rng.randrange(2 ** 31)
+        g = np.random.default_rng(seed)
+        dt = rng.choice([0.01, 0.005, 0.02])
+        ns, we = g.standard_normal(n), g.standard_normal(n) * 3.0
+        theta = rng.choice([33.0, 123.5, -77.25, 301.0])
+        desc = {'generator': 'c18._x2_large: ns = standard_normal(n), we = 3 standard_normal(n)', 'n': n, 'numpy_seed': seed, 'dt': dt, 'angle': theta}
+        cur.clear()
+        cur.update(desc)
+        ctx.hist('extras2/large')
+        ctx.count_case(('x2l', n, seed, dt, theta), True, sample=desc)
+        a, b = light_history(ctx, eqsig.AccSignal, ns, dt), light_history(ctx, eqsig.AccSignal, we, dt)
+        ctx.last_object_history = None
+        scale = float(max(np.max(np.abs(ns)), np.max(np.abs(we))))
+        r = call_impl(combine_at_angle, a, b, theta)
+        ok = r[0] == 'ok' and isinstance(r[1], eqsig.AccSignal) and r[1].npts == n and r[1].dt == dt
+        if ok:
+            want = ns * math.cos(math.radians(theta)) + we * math.sin(math.radians(theta))
+            ok = float(np.max(np.abs(r[1].values - want))) <= 1e-12 * scale
+        ctx.oracle('C18.a (large) combination at angle theta == ns*cos(theta) + we*sin(theta), an AccSignal with the components\' step and length', ok, desc)
+        ctx.oracle('C18.a (large) theta = 0 gives ns, theta = 90 gives we, theta + 180 negates', same(combine_at_angle(a, b, 0).values, ns) and
+                   float(np.max(np.abs(combine_at_angle(a, b, 90).values - we))) <= 1e-15 * scale and
+                   float(np.max(np.abs(combine_at_angle(a, b, theta + 180).values + combine_at_angle(a, b, theta).values))) <= 1e-12 * scale, desc)
+        off = rng.choice([0, 30.5, -45.25])
+        rr = val(call_impl(compute_rotated, a, b, angle_off_ns=off, parameter='pga', points=4))
+        ok = rr is not None and len(rr[0]) == 4 and len(rr[1]) == 4
+        if ok:
+            want = np.array([float(np.max(np.abs(ns * math.cos(math.radians(d)) + we * math.sin(math.radians(d))))) for d in rr[0]])
+            ok = bool(np.all(np.abs(np.asarray(rr[1], dtype=float) - want) <= 1e-12 * scale)) and abs(float((rr[0][-1] - rr[0][0]) % 360) - 180) <= 1e-9
+        ctx.oracle('C18.b (large) the pga scan returns, for angles spanning a half circle, the peak of each combination', ok, {**desc, 'angle_off_ns': off})
+        ctx.oracle('C18 (large) rotation leaves the components unchanged', same(a.values, ns) and same(b.values, we), desc)
+        # same_start on long records
+        nsig = rng.choice([2, 3, 4])
+        master = rng.randrange(nsig)
+        recs = [g.standard_normal(n) + float(k) for k in range(nsig)]
+        start, end = rng.choice([(0, 1), (0.5, 20.0), (0, (n - 2) * dt), (10.0, n * dt / 2)])
+        c = eqsig.Cluster([x.copy() for x in recs], dt, master_index=master)
+        r = call_impl(c.same_start, start=start, end=end)
+        ok = r[0] == 'ok'
+        if ok:
+            for k in range(nsig):
+                v = np.asarray(c.values_by_index(k))
+                ok = ok and isinstance(c.values_by_index(k), np.ndarray) and v.shape == (n,)
+                if k == master:
+                    ok = ok and same(v, recs[master])
+                else:
+                    ok = ok and abs(c.signal_by_index(k).get_section_average(start=start, end=end) - c.signal_by_index(master).get_section_average(start=start, end=end)) <= 1e-11
+                    ok = ok and float(np.max(np.abs((v - recs[k]) - (v[0] - recs[k][0])))) <= 1e-12 * (1 + nsig)
+        ctx.oracle('C18.d (large) same_start: every non-master section average equals the master\'s, by a constant shift; master unchanged; values stay arrays', ok,
+                   {**desc, 'signals': nsig, 'master_index': master, 'start': start, 'end': end}, detail=r if r[0] != 'ok' else None)
+
+
+def extras2(ctx):
+    from _hxb_common import guarded_sections
+    guarded_sections(ctx, 'C18', [('scale', _x2_scale), ('options', _x2_options), ('large', _x2_large)])
+
+
+_run_main2 = run
+
+
+def run(ctx):
+    _run_main2(ctx)
+    extras2(ctx)
+    ctx.flush()
